@@ -1037,3 +1037,367 @@ def _race_shard(args):
     return {"nsched": nsched, "nhist": len(traces), "bad": bad, "ndrift": ndrift, "drift": drift[:3],
             "maxpre": maxpre, "preempted": sum(1 for x in meta if x["pre"] > 0),
             "sample": traces[len(traces) // 2] if traces else None}
+
+
+# =================================================================================================
+# orchestration
+
+RACE_OPS = [("goc", "a"), ("goc", "b"), ("req", "a"), ("req", "b"), ("clear", NONE), ("len", NONE)]
+RACE_FIXED = [
+    {"np": 1, "init": [], "threads": [[("goc", "a")], [("goc", "a")], [("goc", "a")]]},
+    {"np": 2, "init": [], "threads": [[("goc", "a"), ("goc", "b")], [("goc", "b"), ("goc", "a")]]},
+    {"np": 1, "init": [], "threads": [[("req", "a")], [("req", "b")]]},
+    {"np": 1, "init": ["a"], "threads": [[("req", "a"), ("req", "a")], [("req", "b")]]},
+    {"np": 2, "init": ["a"], "threads": [[("goc", "a"), ("goc", "a")], [("clear", NONE), ("goc", "a")]]},
+    {"np": 1, "init": ["a"], "threads": [[("req", "a")], [("clear", NONE)], [("goc", "a")]]},
+]
+
+
+def race_programs(rng, n):
+    out = [json.loads(json.dumps(p)) for p in RACE_FIXED]
+    while len(out) < n:
+        shape = rng.choice([(2, 2), (3, 1), (2, 1), (3, 2)])
+        out.append({"np": rng.choice([1, 2]), "init": rng.choice([[], ["a"], ["a", "b"]])[:2],
+                    "threads": [[list(rng.choice(RACE_OPS)) for _ in range(shape[1])] for _ in range(shape[0])]})
+    for p in out:
+        p["init"] = p["init"][:p["np"]]
+        p["threads"] = [[list(o) for o in th] for th in p["threads"]]
+    return out
+
+
+def random_container_programs(rng, n):
+    ops = [(o, k) for o in ("get", "getd", "set", "del") for k in "abc"] + [("clear", NONE), ("len", NONE), ("keys", NONE)]
+    out = []
+    for _ in range(n):
+        m = rng.choice([0, 1, 1, 2, 2, 3])
+        init = [["a", 101], ["b", 102], ["c", 103]][:rng.randint(0, m)]
+        nt = rng.choice([2, 3, 3])
+        out.append(prog_key(m, init, [[list(rng.choice(ops)) for _ in range(rng.randint(1, 3))] for _ in range(nt)]))
+    return out
+
+
+def _chunks(xs, n):
+    n = max(1, n)
+    k = (len(xs) + n - 1) // n
+    return [xs[i:i + k] for i in range(0, len(xs), k)] if xs else []
+
+
+def _stage1_conc(args):
+    name, cfg, need = args
+    r = run_tlc("MC_LRUConc", cfg, workers=6, heap="4g", coverage=True, timeout=7200)
+    return {"name": name, "violated": r.violated, "distinct": r.distinct, "generated": r.generated,
+            "depth": r.depth, "wall": r.wall, "coverage": {k: v[1] for k, v in r.coverage.items()}, "need": need}
+
+
+def _stage1_lru(_):
+    r = run_tlc("MC_LRU", LRU_MC_CFG.format(props="\n".join(LRU_PROPS), emit=""), workers=4, heap="2g", timeout=1800)
+    return {"name": "MC_LRU 4 keys, values {1,2}, maxsize 0..3", "violated": r.violated, "distinct": r.distinct,
+            "generated": r.generated, "depth": r.depth, "wall": r.wall}
+
+
+def run(rep):
+    from concurrent.futures import ThreadPoolExecutor
+    quick = rep.tier == "quick"
+    seed = rep.seed
+    rng = random.Random(seed * 7919 + 17)
+    rep.rule = ("a case is one execution of real code judged against the specification: a replayed LRU transition, "
+                "a recorded operation sequence, one schedule of a multi-threaded program, one PoolManager scenario. "
+                "Non-trivial = the transition changes the container or disposes a value / the sequence evicts before "
+                "its epilogue / the schedule contains at least one preemption / a pool leaves the manager's cache "
+                "while a response on it is in flight or a handle to it is held")
+    rep.assumptions = ["keys, values and URLs restricted to the stated alphabets; pools use the default maxsize=1, block=False",
+                       "yield points of the scheduler: lock acquire/release, dispose calls, operation starts, and (part of "
+                       "the runs) every source line of RecentlyUsedContainer / PoolManager.connection_from_*; bytecode-level "
+                       "races inside one line are not explored",
+                       "'socket closed' is EOF seen by the in-memory peer after gc.collect(); CPython reference counting",
+                       "TLC 1.8, CPython 3.12 threading / sys.monitoring, vh/net.py and vh/lrusched.py are trusted"]
+    t_start = time.time()
+    s1 = ThreadPoolExecutor(6)
+    futs = []
+    # ---------------- stage 1 (runs in the background while the Python side works)
+    futs.append(("lru", s1.submit(_stage1_lru, None)))
+    conc_cfgs = [("LRUConc T2x2 AlphabetQ small-step", dict(threads="T2", n=2, alpha="MCAlphabetQ", inits="MCInitQ",
+                                                            ms="MCMaxSizesQ", hasd="TRUE"), ["Start", "Step", "Rel", "Disp", "Ret"]),
+                 ("LRUConc T3x1 get-or-create small-step", dict(threads="T3", n=1, alpha="MCAlphabetPM", inits="MCInitPM",
+                                                                ms="MCMaxSizesQ", hasd="FALSE"), ["Start", "Step", "Rel", "Ret"])]
+    if not quick:
+        conc_cfgs += [("LRUConc T2x2 full alphabet small-step", dict(threads="T2", n=2, alpha="MCAlphabet", inits="MCInitConts",
+                                                                     ms="MCMaxSizes", hasd="TRUE"), ["Start", "Step", "Rel", "Disp", "Ret"]),
+                      ("LRUConc T3x1 full alphabet small-step", dict(threads="T3", n=1, alpha="MCAlphabet", inits="MCInitConts",
+                                                                     ms="MCMaxSizes", hasd="TRUE"), ["Start", "Step", "Rel", "Disp", "Ret"]),
+                      ("LRUConc T2x2 get-or-create small-step", dict(threads="T2", n=2, alpha="MCAlphabetPM", inits="MCInitPM",
+                                                                     ms="MCMaxSizesQ", hasd="FALSE"), ["Start", "Step", "Rel", "Ret"])]
+    for name, kw, need in conc_cfgs:
+        cfg = CONC_MC_CFG.format(spec="Spec", big="FALSE", props="\n".join(CONC_PROPS), emit="", **kw)
+        futs.append(("conc", s1.submit(_stage1_conc, (name, cfg, need))))
+    live_cfg = CONC_MC_CFG.format(spec="FairSpec", big="FALSE", props="PROPERTY Termination", emit="", threads="T2", n=1,
+                                  alpha="MCAlphabet", inits="MCInitConts", ms="MCMaxSizes", hasd="TRUE")
+    futs.append(("conc", s1.submit(_stage1_conc, ("LRUConc T2x1 full alphabet, Termination under weak fairness", live_cfg, []))))
+    pc_runs = [("PoolCache T2 MaxOps=3 O2", pc_cfg(T="T2", N=3, O="O2"), None),
+               ("PoolCache T1 MaxOps=4 O3 eager gc", pc_cfg(T="T1", N=4, O="O3", E="TRUE"), None),
+               ("PoolCache T2 MaxOps=3 O2 liveness", pc_cfg(T="T2", N=3, O="O2", props=False, live=True), None)]
+    if not quick:
+        pc_runs += [("PoolCache T2 MaxOps=4 O2", pc_cfg(T="T2", N=4, O="O2"), None),
+                    ("PoolCache T3 MaxOps=3 O2", pc_cfg(T="T3", N=3, O="O2"), None),
+                    ("PoolCache T1 MaxOps=5 O3", pc_cfg(T="T1", N=5, O="O3"), None)]
+    for dev, (clause, kw) in PC_TEETH.items():
+        pc_runs.append((f"PoolCache deviation {dev[3:]}", pc_cfg(D=dev, **kw), clause))
+    for x in pc_runs:
+        futs.append(("pc", s1.submit(_pc_stage1, x)))
+
+    with mp.Pool(NPROC) as pool:
+        # ---------------- A. sequential container
+        a_emit = pool.apply_async(seq_emit_and_replay)
+        L = 3 if quick else 4
+        total = len(SEQ_OPS) ** L
+        jobs = []
+        nsh = 3 if quick else 24
+        for m in (0, 1, 2, 3):
+            for i in range(nsh):
+                jobs.append(("all", m, total * i // nsh, total * (i + 1) // nsh, L, 0))
+        nr, per = (4, 400) if quick else (16, 3000)
+        for i in range(nr):
+            jobs.append(("rand", 0, 0, per, 8 if i % 2 == 0 else 30, seed * 1000 + i))
+        a_tr = pool.map_async(_seq_shard, jobs)
+        # ---------------- B. concurrent container: outcome sets from TLC
+        emit_cfgs = [dict(threads="T2", n=2, alpha="MCAlphabetQ", inits="MCInitQ", ms="MCMaxSizesQ", hasd="TRUE"),
+                     dict(threads="T3", n=1, alpha="MCAlphabet" if not quick else "MCAlphabetSmall", inits="MCInitConts",
+                          ms="MCMaxSizes", hasd="TRUE")]
+        if not quick:
+            emit_cfgs.append(dict(threads="T2", n=2, alpha="MCAlphabetSmall", inits="MCInitConts", ms="MCMaxSizes", hasd="TRUE"))
+        b_emit = pool.map_async(_conc_emit, [CONC_MC_CFG.format(spec="Spec", big="TRUE", props="", emit="ACTION_CONSTRAINT Emit", **kw)
+                                             for kw in emit_cfgs])
+        # ---------------- C. PoolManager scenarios from TLC
+        if quick:
+            sc_cfgs = [pc_cfg(O="O3", NP="NP12", T="T1", N=4, E="TRUE", props=False, emit="ACTION_CONSTRAINT EmitTransitions",
+                              emitting="TRUE", view=True)]
+        else:
+            sc_cfgs = [pc_cfg(O="O3", NP="NP12", T="T1", N=4, E="TRUE", props=False, emit="ACTION_CONSTRAINT EmitPaths",
+                              emitting="TRUE"),
+                       pc_cfg(O="O4", NP="NP12", T="T1", N=5, E="TRUE", props=False, emit="ACTION_CONSTRAINT EmitTransitions",
+                              emitting="TRUE", view=True)]
+        c_emit = pool.map_async(_pc_emit, [(c, 0, 1) for c in sc_cfgs])
+        # ---------------- C4. racing managers (no TLC emission needed: programs are seeded)
+        rprogs = race_programs(rng, 38 if quick else 400)
+        race_jobs = [(ch, 2, 150 if quick else 600, 4 if quick else 20, seed, False) for ch in _chunks(rprogs, NPROC)]
+        race_jobs += [(ch, 1, 60 if quick else 400, 6 if quick else 30, seed + 1, True)
+                      for ch in _chunks(rprogs[:16 if quick else 160], NPROC // 2)]
+        c_race = pool.map_async(_race_shard, race_jobs)
+
+        # ---- collect A
+        ae = a_emit.get()
+        if ae["n"] != ae["generated"] - 4 or ae["n"] == 0:
+            raise tlc.MachineryError(f"LRU emission incomplete: {ae['n']} transitions parsed, TLC generated {ae['generated']}")
+        if set(ae["kinds"]) != {"get", "getd", "set", "del", "clear", "len", "keys"}:
+            raise tlc.MachineryError(f"LRU emission misses an operation kind: {ae['kinds']}")
+        rep.evaluations += ae["n"]
+        rep.nontrivial.update(("tr", i) for i in range(ae["nontriv"]))
+        for sm in ae["samples"][:1]:
+            rep.sample({"lru_transition": sm})
+        for clause, detail, t in ae["bad"]:
+            rep.violation(clause, "replayed LRU transition: " + detail, {"kind": "transition", "transition": t})
+        rep.extra["lru_transitions_emitted"] = ae["generated"] - 4
+        rep.extra["lru_transitions_replayed"] = ae["n"]
+        outs = a_tr.get()
+        rep.extra["seq_traces"] = sum(o["n"] for o in outs)
+        rep.extra["seq_trace_events"] = sum(o["events"] for o in outs)
+        for o in outs:
+            rep.traces += o["n"]
+            rep.evaluations += o["events"]
+            rep.nontrivial.update(("seq", id(o), i) for i in range(o["evicting"]))
+            for clause, pos, case in o["bad"]:
+                rep.violation(clause, f"operation sequence rejected by LRU_Trace at event {pos}: clause {clause}", case)
+            for d in o["drift"]:
+                rep.drift.append(f"LRU_Trace {d}")
+        if outs and outs[0]["sample"]:
+            rep.sample({"seq_trace": {"m": outs[0]["sample"]["m"], "ev": outs[0]["sample"]["ev"][:3]}})
+
+        # ---- collect B emission, then run programs
+        bem = b_emit.get()
+        progs = {}
+        for o in bem:
+            progs.update(o["progs"])
+        if not progs:
+            raise tlc.MachineryError("LRUConc emitted no program")
+        rep.extra["conc_programs_emitted"] = len(progs)
+        rep.extra["conc_outcomes_emitted"] = sum(len(v) for v in progs.values())
+        keys = sorted(progs)
+        nsel = 192 if quick else 2400
+        sel = rng.sample(keys, min(nsel, len(keys)))
+        jobs = [([(k, progs[k]) for k in ch], 2, 160 if quick else 1500, 3 if quick else 10, seed, False)
+                for ch in _chunks(sel, NPROC * (1 if quick else 3))]
+        rnd = random_container_programs(rng, 48 if quick else 480)
+        jobs += [([(k, None) for k in ch], 1, 40 if quick else 200, 12 if quick else 60, seed + 7, True)
+                 for ch in _chunks(rnd, NPROC // 2 if quick else NPROC)]
+        b_run = pool.map_async(_conc_run_shard, jobs)
+
+        # ---- collect C emission, then replay scenarios
+        cem = c_emit.get()
+        scen = []
+        for o in cem:
+            for x in o["scen"]:
+                d = json.loads(_unq(x))
+                scen.append((d["np"], d["hist"]))
+        if not scen:
+            raise tlc.MachineryError("PoolCache emitted no scenario")
+        rep.extra["pm_scenarios_emitted"] = len(scen)
+        ops_seen = {x["op"] for _, h in scen for x in h}
+        if not {"req", "goc", "hsend", "fin", "dropr", "droph", "clear", "gc"} <= ops_seen:
+            raise tlc.MachineryError(f"PoolCache scenarios miss an operation kind: {sorted(ops_seen)}")
+        if quick and len(scen) > 4000:
+            scen = rng.sample(scen, 4000)
+        rep.extra["pm_scenarios_replayed"] = len(scen)
+        nrw = 40 if quick else 800
+        jobs = [(ch, seed * 100 + i, nrw, 14 if quick else 24) for i, ch in enumerate(_chunks(scen, NPROC * (1 if quick else 4)))]
+        c_run = pool.map_async(_pm_shard, jobs)
+
+        bouts = b_run.get()
+        couts = c_run.get()
+        routs = c_race.get()
+
+    # ---- B results
+    rep.extra["conc_programs_run"] = len(sel) + len(rnd)
+    rep.extra["conc_schedules"] = sum(o["nsched"] for o in bouts)
+    rep.extra["conc_histories_validated"] = sum(o["nhist"] for o in bouts)
+    rep.extra["conc_yield_points"] = {}
+    for o in bouts:
+        rep.evaluations += o["nsched"]
+        rep.traces += o["nhist"]
+        rep.nontrivial.update(("conc", id(o), i) for i in range(o["preempted"]))
+        for kk, vv in o["kinds"].items():
+            rep.extra["conc_yield_points"][kk] = rep.extra["conc_yield_points"].get(kk, 0) + vv
+        for clause, pos, case in o["bad"]:
+            rep.violation(clause, f"concurrent history rejected by LRUConc_Trace: clause {clause}", case)
+        for prog, choices, oc in o["out_bad"]:
+            rep.violation("Linearizable", f"outcome {oc} is not in the set TLC emitted for this program",
+                          {"kind": "conc", "prog": prog, "choices": choices, "lines": False})
+        for d, meta in o["drift"]:
+            rep.drift.append(f"LRUConc_Trace {list(d)} program {meta['prog']} schedule {meta['choices']}")
+        if o["unreached"]:
+            rep.drift.append(f"{o['unreached']} outcomes allowed by LRUConc were not produced by any explored schedule")
+    if bouts and bouts[0]["sample"]:
+        h = bouts[0]["sample"]
+        rep.sample({"concurrent_history": {"m": h["m"], "init": h["init"],
+                                           "ev": [{k: v for k, v in e.items() if v not in (NONE, 0, [], False) or k == "t"} for e in h["ev"][:14]]}})
+    yp = rep.extra["conc_yield_points"]
+    if not (yp.get("acq") and yp.get("rel") and yp.get("disp") and yp.get("line")):
+        raise tlc.MachineryError(f"scheduler yield points not all exercised: {yp}")
+    if rep.extra["conc_histories_validated"] == 0 or max(o["maxpre"] for o in bouts) < 2:
+        raise tlc.MachineryError("no preempted concurrent history was produced")
+
+    # ---- C results
+    rep.extra["pm_traces"] = sum(o["n"] for o in couts)
+    rep.extra["pm_trace_events"] = sum(o["events"] for o in couts)
+    for o in couts:
+        rep.traces += o["n"]
+        rep.evaluations += o["events"]
+        rep.nontrivial.update(("pm", id(o), i) for i in range(o["nontriv"]))
+        for clause, pos, case in o["bad"]:
+            rep.violation(clause, f"PoolManager trace rejected by PoolCache_Trace at event {pos}: clause {clause}", case)
+        for d, np_, hist in o["drift"]:
+            rep.drift.append(f"PoolCache_Trace {d} num_pools={np_} scenario {hist}")
+        for mm, np_, hist in o["exp_bad"]:
+            rep.drift.append(f"PoolManager observation differs from the model's expectation: {mm} (num_pools={np_}, scenario {_strip(hist)})")
+    if couts and couts[0]["sample"]:
+        rep.sample({"pm_trace": {"np": couts[0]["sample"]["np"], "ev": couts[0]["sample"]["ev"][:4]}})
+    if sum(o["nontriv"] for o in couts) == 0:
+        raise tlc.MachineryError("no scenario evicted a pool that was still in use")
+    rep.extra["race_programs"] = len(rprogs)
+    rep.extra["race_schedules"] = sum(o["nsched"] for o in routs)
+    rep.extra["race_histories_validated"] = sum(o["nhist"] for o in routs)
+    for o in routs:
+        rep.evaluations += o["nsched"]
+        rep.traces += o["nhist"]
+        rep.nontrivial.update(("race", id(o), i) for i in range(o["preempted"]))
+        for clause, pos, case in o["bad"]:
+            rep.violation(clause, f"racing PoolManager history rejected by LRUConc_Trace: clause {clause}", case)
+        for d, meta in o["drift"]:
+            rep.drift.append(f"LRUConc_Trace(manager) {list(d)} program {meta['prog']} schedule {meta['choices']}")
+    if routs and routs[0]["sample"]:
+        h = routs[0]["sample"]
+        rep.sample({"race_history": {"np": h["m"], "init": h["init"],
+                                     "ev": [{k: v for k, v in e.items() if v not in (NONE, 0, [], False) or k == "t"} for e in h["ev"][:12]]}})
+
+    # ---- stage 1 results
+    for kind, f in futs:
+        o = f.result()
+        rep.states += o["distinct"]
+        rep.transitions += o["generated"]
+        rep.stage1.append({"run": o["name"], "distinct_states": o["distinct"], "states_generated": o["generated"],
+                           "depth": o["depth"], "wall_s": round(o["wall"], 1)})
+        if kind == "lru":
+            if o["violated"]:
+                rep.violation("ReferenceInconsistent", f"TLC: {o['violated']} violated in LRU.tla")
+        elif kind == "conc":
+            if o["violated"]:
+                rep.violation("DesignModel", f"TLC: {o['violated']} violated in {o['name']}")
+            for a in o["need"]:
+                if not o["coverage"].get(a):
+                    raise tlc.MachineryError(f"{o['name']}: action {a} never taken (vacuous)")
+        else:
+            name = o["name"]
+            expect = next((c for d, (c, _) in PC_TEETH.items() if name.endswith(d[3:])), None) if "deviation" in name else None
+            if expect is None:
+                if o["violated"]:
+                    rep.violation("DesignModel", f"TLC: {o['violated']} violated in {name}")
+                if "liveness" not in name:
+                    for a in PC_ACTIONS:
+                        if not o["coverage"].get(a):
+                            raise tlc.MachineryError(f"{name}: action {a} never taken (vacuous)")
+            elif o["violated"] != [expect]:
+                raise tlc.MachineryError(f"{name}: expected TLC to report exactly {expect}, got {o['violated']} "
+                                         "(the rule has no teeth)")
+    s1.shutdown()
+    rep.exhaustive = True
+    rep.extra["wall_breakdown_s"] = {"total": round(time.time() - t_start, 1)}
+
+
+# =================================================================================================
+# replay
+
+def replay(rep, path):
+    with open(path) as fh:
+        doc = json.load(fh)
+    case = doc["case"]
+    kind = case["kind"]
+    rep.rule = "replay of one recorded case"
+    rep.nontrivial.update({1, 2})
+    rep.evaluations += 1
+    rep.states = rep.states or 1
+    rep.transitions = rep.transitions or 1
+    if kind == "transition":
+        v = check_transition(case["transition"])
+        if v:
+            rep.violation(v[0], "replayed LRU transition: " + v[1], case)
+        return
+    if kind == "seqtrace":
+        tr = record_seq_trace(case["m"], [tuple(o) for o in case["ops"]], case.get("hasd", True))
+        module, cfg = "LRU_Trace", LRU_TRACE_CFG
+    elif kind == "conc":
+        if case.get("lines"):
+            instrument_lines(_ruc())
+        prog = case["prog"]
+        prog = {"m": prog["m"], "init": prog["init"], "threads": [[tuple(o) for o in th] for th in prog["threads"]]}
+        tr, s = run_container_program(prog, FixedChooser(case["choices"], strict=False), case.get("lines", False))
+        module, cfg = "LRUConc_Trace", CONC_TRACE_CFG.format(hasd="TRUE")
+    elif kind == "pmscenario":
+        tr = run_pm_scenario(case["np"], case["ops"])
+        module, cfg = "PoolCache_Trace", PC_TRACE_CFG
+    elif kind == "pmrace":
+        if case.get("lines"):
+            from urllib3.poolmanager import PoolManager
+            instrument_lines(_ruc(), PoolManager.connection_from_pool_key, PoolManager.connection_from_context,
+                             PoolManager.connection_from_host, PoolManager.connection_from_url, PoolManager.clear)
+        prog = case["prog"]
+        prog = {"np": prog["np"], "init": prog["init"], "threads": [[tuple(o) for o in th] for th in prog["threads"]]}
+        tr, s = run_pm_race(prog, FixedChooser(case["choices"], strict=False), case.get("lines", False))
+        module, cfg = "LRUConc_Trace", CONC_TRACE_CFG.format(hasd="FALSE")
+    else:
+        raise tlc.MachineryError("unknown replay kind " + str(kind))
+    r, verdicts, drifts = validate(module, cfg, [tr])
+    rep.traces += 1
+    pos, clause = verdicts[1]
+    if clause != "ok":
+        rep.violation(clause, f"trace rejected by {module} at event {pos}: clause {clause}", case)
+    for d in drifts:
+        rep.drift.append(f"{module} {list(d)}")
